@@ -889,7 +889,7 @@ func ruleAppResponseCacheKey(c *Ctx, p *Prog, rule string) {
 	}{{"lookup", rd}, {"store", wr}} {
 		okg := false
 		for _, g := range GuardConds(site.in) {
-			if bo, ok := g.Cond.(*ssa.BinOp); ok && bo.Op == token.EQL && g.Truth {
+			if bo, ok := g.Cond.(*ssa.BinOp); ok && ((bo.Op == token.EQL && g.Truth) || (bo.Op == token.NEQ && !g.Truth)) {
 				s1, c1 := ConstString(bo.X)
 				s2, c2 := ConstString(bo.Y)
 				if (c1 && s1 == "GET") || (c2 && s2 == "GET") {
